@@ -170,6 +170,33 @@ def rs_sign(key, alg, msg):
     return pow(int.from_bytes(em, "big"), d, n).to_bytes(k, "big")
 
 
+PSH = {"PS256": hashlib.sha256, "PS384": hashlib.sha384, "PS512": hashlib.sha512}
+
+
+def ps_sign(key, alg, msg, salt):
+    """RSASSA-PSS (RFC 8017 9.1.1 / 8.1.1) with MGF1 over the same hash and a salt as long as the digest (what JWA
+    demands); None when the modulus is too short for the encoding"""
+    h = PSH[alg]
+    n = int.from_bytes(G.b64d(key["n"]), "big")
+    d = int.from_bytes(G.b64d(key["d"]), "big")
+    embits = n.bit_length() - 1
+    emlen = (embits + 7) // 8
+    mh = h(msg).digest()
+    hl = len(mh)
+    if emlen < hl + len(salt) + 2:
+        return None
+    H = h(bytes(8) + mh + salt).digest()
+    db = bytes(emlen - len(salt) - hl - 2) + b"\x01" + salt
+    mask, c = b"", 0
+    while len(mask) < len(db):
+        mask += h(H + c.to_bytes(4, "big")).digest()
+        c += 1
+    mdb = bytearray(x ^ y for x, y in zip(db, mask))
+    mdb[0] &= 0xFF >> (8 * emlen - embits)
+    em = bytes(mdb) + H + b"\xbc"
+    return pow(int.from_bytes(em, "big"), d, n).to_bytes((n.bit_length() + 7) // 8, "big")
+
+
 def run_rsa(ctx):
     keys = small_rsa()
     pay = G.b64u(b"payload")
@@ -182,9 +209,10 @@ def run_rsa(ctx):
         for alg in G.RSA:
             why = "a %s-bit RSA key for %s" % (bits, alg)
             ops.append(("jws.sig", {"jws": {"payload": pay}, "sig": {"protected": {"alg": alg}}, "jwk": key, flag: True, "_site": "rsa:modulus", "_why": why + " (sign)"}))
-            if alg in DI:
+            if alg in DI or alg in PSH:
                 prot = G.enc({"alg": alg})
-                s = rs_sign(key, alg, (prot + "." + pay).encode())
+                s = rs_sign(key, alg, (prot + "." + pay).encode()) if alg in DI else \
+                    ps_sign(key, alg, (prot + "." + pay).encode(), ctx.rng.randbytes(PSH[alg]().digest_size))
                 if s is not None:
                     tok = {"payload": pay, "protected": prot, "signature": G.b64u(s)}
                     for k2, kw in ((pub, "public"), (key, "private")):
